@@ -325,7 +325,7 @@ def run(ctx):
                                  "signature": "remove_supersets does not return exactly the inclusion-minimal sets, each once",
                                  "what": "remove_supersets wrong", "theorem": "InfOCF.removeSupersets_spec"})
     # ---- (b) enumeration ----------------------------------------------------------------
-    bases = answers.gen_cases(ctx, 60 if quick else 1500, (2, 5), (2, 7), [False], ties=0.5, q_per=5, consts=0.1)
+    bases = answers.gen_cases(ctx, 60 if quick else 1500, (2, 5), (2, 7), [False], ties=0.5, q_per=5, consts=0.1, rekey=0.3)
     # bases whose conditionals have multi-clause non-falsification CNFs (conjunctive consequents), where the number of
     # violated soft clauses and the number of falsified conditionals disagree
     for _ in range(60 if quick else 1500):
@@ -347,6 +347,10 @@ def run(ctx):
     mcs_cases = [c for c in answers.load_corpus("C15") if c.get("style")]
     for b in bases:
         b = {k: v for k, v in b.items() if not k.startswith("_")}
+        if rng.random() < 0.3:
+            # keys as in `dict(enumerate(conds))`: starting at 0
+            b["base"] = [[i, x, a] for i, (_, x, a) in enumerate(b["base"])]
+            ctx.bump("mcs:keys_from_0")
         mcs_cases += gen_mcs_cases(rng, b, engines)
     def engine_died(case):
         # a SAT engine of the installed pysat that kills the interpreter is not a usable engine (third-party native code)
